@@ -172,10 +172,20 @@ for k in ["pawn", "knight", "bishop", "rook", "queen", "king", "none"]:
     for m, mt in [(0, "not in check"), (1, "single check"), (2, "double check")]:
         for prop in ("C01", "C16"):
             ob(prop, "O-%s.gen.%s.%d" % (prop, k, m), MG + "c01_gen_%s_%d" % (k, m),
-               "generate_moves_for(mask, listener) on every accepted board (%s), query origin holding %s: the query move is delivered exactly once iff it is legal by the rules and its origin is in the mask; batches non-empty, origin in mask, piece correct; no call after abort, return value == aborted; <= 1 ordinary + 1 en-passant batch per origin" % (mt, "an own " + k if k != "none" else "no own piece"),
-               GENFNS, timeout=3600, cut=True, flags=BF,
-               tier="quick" if (prop == "C01" or (k, m) in (("pawn", 0), ("rook", 1), ("king", 0), ("none", 2))) else "thorough")
-
+               "whole path: generate_moves_for(mask, listener) on every accepted board (%s), query origin holding %s: the query move is delivered exactly once iff it is legal by the rules and its origin is in the mask; batches non-empty, origin in mask, piece correct; no call after abort, return value == aborted; <= 1 ordinary + 1 en-passant batch per origin" % (mt, "an own " + k if k != "none" else "no own piece"),
+               GENFNS, timeout=3600, cut=True, flags=BF, tier="thorough")
+for prop in ("C01", "C16"):
+    ob(prop, "O-%s.dispatch" % prop, MG + "c01_dispatch", "generate_moves_for against recording contract stubs of the six generator functions: by number of checkers (0 / 1 / >= 2) it calls every function once with IN_CHECK false / every function once with IN_CHECK true / only the king function, always with the caller's mask, stops at the first abort and returns true exactly then",
+       ["Board::generate_moves_for", "Board::add_all_legals"], timeout=900)
+    ob(prop, "O-%s.dispatch.full" % prop, MG + "c01_dispatch_full_mask", "generate_moves is generate_moves_for with the full mask (same dispatch contract)",
+       ["Board::generate_moves", "Board::generate_moves_for"], timeout=900)
+FNOF = {"pawn": "Board::add_pawn_legals", "knight": "Board::add_knight_legals", "bishop": "Board::add_slider_legals<Bishop>", "rook": "Board::add_slider_legals<Rook>", "queen": "Board::add_slider_legals<Queen>", "king": "Board::add_king_legals"}
+for k in ["pawn", "knight", "bishop", "rook", "queen", "king"]:
+    for m, mt in [(0, "not in check"), (1, "in check")]:
+        for prop in ("C01", "C16"):
+            ob(prop, "O-%s.fn.%s.%d" % (prop, k, m), MG + "c01_fn_%s_%d" % (k, m),
+               "per-function contract of %s (%s) called directly with the ghost listener on every accepted board, mask and abort plan: the query move is delivered exactly once iff it is legal by the rules, its origin is in the mask and holds a %s; per-batch contract; returns true exactly when the listener aborted, no call after an abort" % (FNOF[k], mt, k),
+               [FNOF[k], "Board::target_squares", "Board::king_safe_on", "Board::can_castle"], timeout=2400, cut=True, flags=BF)
 # ------------------------------------------------------------------------------------------- C04
 for k in ["pawn", "knight", "bishop", "rook", "queen", "king", "none"]:
     ob("C04", "O-C04.is-legal." + k, MG + "c04_is_legal_" + k, "is_legal(mv) == legality by the rules for every accepted board and every move value (64x64x7) whose origin holds %s; never panics" % ("an own " + k if k != "none" else "no own piece"),
@@ -211,7 +221,7 @@ ob("C03", "O-C03.calc", VD + "c03_calc", "calculate_checkers_and_pins(colour) ==
 ob("C03", "O-C03.null", BD + "c14_null_move", "after null_move: checkers empty and pins == definition on the resulting position",
    ["Board::null_move"], timeout=1800, cut=True, flags=BF)
 ob("C03", "O-C03.ctor.build", BL + "c09_build", "build() stores checkers and pins equal to their definition (part of the build contract)",
-   ["BoardBuilder::build", "BoardBuilder::add_board"], timeout=3600, cut=True, flags=BF)
+   ["BoardBuilder::build", "BoardBuilder::add_board"], timeout=3600, cut=True, flags=BF, tier="thorough")
 ob("C06", "O-C06.board_is_valid", VD + "c06_board_is_valid", "board_is_valid() <=> consistent placement, one king per side, kings not adjacent, <=16 pieces, <=8 pawns, no pawn on rank 1/8, side not to move not in check",
    ["Board::board_is_valid", "Board::calculate_checkers_and_pins"], timeout=2400, cut=True, flags=BF)
 ob("C06", "O-C06.castle_rights_are_valid", VD + "c06_castle_rights_are_valid", "castle_rights_are_valid() <=> every right backed by the king on its back rank and an own rook on the named file on the correct side",
@@ -225,13 +235,16 @@ ob("C06", "O-C06.clocks", VD + "c06_clocks_valid", "halfmove_clock_is_valid <=> 
 ob("C06", "O-C06.spec.attack-duality", VD + "spec_attack_duality", "oracle guard: forward (union of attack sets) and reverse (lookup from the target) formulations of 'attacked' agree for every placement and occupancy",
    ["(oracle) attacked_by", "(oracle) attackers_of"], timeout=1800, flags=BF)
 ob("C06", "O-C06.accept.build", BL + "c09_build", "build() returns a board only for states denoting an accepted position (=> every fact of the statement), and returns one for every such state",
-   ["BoardBuilder::build"], timeout=3600, cut=True, flags=BF)
+   ["BoardBuilder::build"], timeout=3600, cut=True, flags=BF, tier="thorough")
 ob("C09", "O-C09.build", BL + "c09_build", "build() on a fully symbolic builder state: Ok exactly when the state denotes an accepted position, board == that position with derived fields by definition and hash accounted; when exactly one aspect is wrong the error names it",
-   ["BoardBuilder::build", "BoardBuilder::add_board", "BoardBuilder::add_castle_rights", "BoardBuilder::add_en_passant", "BoardBuilder::add_halfmove_clock", "BoardBuilder::add_fullmove_number"], timeout=3600, cut=True, flags=BF, expect_covers=1)
+   ["BoardBuilder::build", "BoardBuilder::add_board", "BoardBuilder::add_castle_rights", "BoardBuilder::add_en_passant", "BoardBuilder::add_halfmove_clock", "BoardBuilder::add_fullmove_number"], timeout=3600, cut=True, flags=BF, expect_covers=1, tier="thorough")
+for cs, ct in [("w_noep", "white to move, no EP square"), ("w_ep", "white to move, EP square given"), ("b_noep", "black to move, no EP square"), ("b_ep", "black to move, EP square given")]:
+    ob("C09", "O-C09.build." + cs.replace("_", "-"), BL + "c09_build_" + cs, "build() contract (Ok exactly for states denoting an accepted position, board == that position with derived fields by definition, single wrong aspect named) restricted to: " + ct,
+       ["BoardBuilder::build", "BoardBuilder::add_board", "BoardBuilder::add_castle_rights", "BoardBuilder::add_en_passant", "BoardBuilder::add_halfmove_clock", "BoardBuilder::add_fullmove_number"], timeout=3600, cut=True, flags=BF)
 ob("C09", "O-C09.from_board", BL + "c09_from_board", "from_board(b) is the builder state denoting b's position (universally quantified square; loop-invariant VCs for the innermost loop)",
    ["BoardBuilder::from_board", "BoardBuilder::square_mut", "BoardBuilder::castle_rights_mut"], timeout=2400, cut=True, flags=BF)
 ob("C10", "O-C10.ctor.build", BL + "c10g_build_hash", "build() leaves hash == XOR of the keys of the features of the built position: from the empty board through the four writers only (feature accounting through their contracts)",
-   ["BoardBuilder::build", "BoardBuilder::add_board", "BoardBuilder::add_castle_rights", "BoardBuilder::add_en_passant"], timeout=3600, cut=True, flags=BF, group="hash-ghost")
+   ["BoardBuilder::build", "BoardBuilder::add_board", "BoardBuilder::add_castle_rights", "BoardBuilder::add_en_passant"], timeout=3600, cut=True, flags=BF, group="hash-ghost", tier="thorough")
 
 # ------------------------------------------------------------------------------------------- C11
 ob("C11", "O-C11.indep4", "indep4.rs", "Verus-verified checker (for all inputs: true => no XOR of 1..4 distinct entries is zero), compiled and executed on the real 793-entry key table dumped from the current tree",
@@ -245,7 +258,7 @@ ob("C08", "O-C08.field.ep.b4", PR + "c08_field_ep_b4", "parse_en_passant accepts
 ob("C08", "O-C08.field.castle.b5", PR + "c08_field_castle_b5", "parse_castle_rights: FEN (KQkq) and Shredder (file letters) notation decoded per reference, duplicates and the EMPTY field rejected", ["Board::parse_castle_rights"], timeout=1800, bounded="all UTF-8 strings of at most 5 bytes; any two king squares")
 for n in (3,):
     ob("C08", "O-C08.field.board.len%d" % n, PR + "c08_field_board_len%d" % n, "parse_board on every ASCII string of exactly %d bytes: accepted exactly for 8 ranks of 8 files, placement as denoted" % n, ["Board::parse_board"], timeout=3600, bounded="all ASCII strings of exactly %d bytes" % n, tier="quick")
-ob("C08", "O-C08.orchestration.b8", PR + "c08_orchestration_b8", "from_fen with all field parsers / validators replaced by recording stubs: a board only for six fields with every stage succeeding, each field handed to its parser; a single failing stage names its field; too few / too many fields reported as such; never panics", ["Board::from_fen"], timeout=3600, bounded="all UTF-8 strings of at most 8 bytes (any number of spaces) x all 2^12 stage outcomes")
+ob("C08", "O-C08.orchestration.b8", PR + "c08_orchestration_b8", "from_fen with all field parsers / validators replaced by recording stubs: a board only for six fields with every stage succeeding, each field handed to its parser; a single failing stage names its field; too few / too many fields reported as such; never panics", ["Board::from_fen"], timeout=3600, bounded="all UTF-8 strings of at most 8 bytes (any number of spaces) x all 2^12 stage outcomes", tier="thorough")
 ob("C08", "O-C08.fromstr", PR + "c08_fromstr_retry", "FromStr returns the plain-FEN result and retries as Shredder-FEN exactly on InvalidCastlingRights", ["Board::from_str"], timeout=900)
 
 ob("C06", "O-C06.start", "startpos", "finite case analysis: all 960 Scharnagl numbers give the Chess960 shape per colour, and all 960 x 960 start-position pairs build, denote accepted positions with derived fields by definition, and equal the Board constructors",
@@ -279,6 +292,9 @@ LEMMAS = {
 LEMMAS["C17"] = ["L-batch: from O-C17.iter.step by induction on the remaining length: iterating a batch yields exactly the moves m with batch_has(m), each exactly once, destinations ascending, promotions in the order N,B,R,Q"]
 LEMMAS["C05"] = ["L-slider (per back end): for all sq, occ: get_X_moves(sq, occ) = T[index(sq, occ)] = T[index(sq, occ & mask)] (lemma a) = spec(sq, occ & mask) (finite case analysis c, every subset of mask) = spec(sq, occ) (lemma b)",
                  "L-const: const variants == spec (O-C05.slow.*, all 64 squares) hence fast lookups == const variants in both back ends"]
+LEMMAS["C01"] = ["L-compose (quick tier): O-C01.dispatch (which functions are called, with which mask / IN_CHECK, abort propagation) + the per-function contracts O-C01.fn.* (each function delivers exactly the legal moves of its own piece kind with origin in the mask) give the whole-path contract of generate_moves_for; the whole-path contract is ALSO machine-checked directly in the thorough tier (O-C01.gen.*, 21 obligations). In double check no non-king move is legal (part of O-C12.status.double-check / O-C01.gen.*.2)",
+                 "L-hist: the contracts hold for every board satisfying INV; INV holds along every history (O-C06.inv-preserved.*, O-C14.null, O-C09.build)"]
+LEMMAS["C16"] = LEMMAS["C01"] + ["L-18: at most one ordinary batch per origin square and one en-passant batch per pawn attacking the EP square (machine-checked per origin, NB_FROM), at most 16 own pieces (INV) and at most 2 pawns attack the EP square: at most 18 batches"]
 LEMMAS["C12"] = ["O-C12.status.table: status() == table(g, checkers non-empty, clock) where g is the answer of its single call generate_moves(|_| true)",
                  "L-exists: g is true iff a legal move exists. (<=) machine-checked (O-C12.status.*: if a legal move exists the has-move row is returned). (=>) from O-C01/O-C16: the listener is only called with non-empty batches all of whose members are legal, and the return value is true only if the listener was called. In double check both directions are machine-checked exactly (O-C12.status.double-check)"]
 LEMMAS["C13"] = ["reflexive/symmetric/transitive: spec_same_position is equality of the tuple (placement, side, rights, effective EP file), a function of one board"]
